@@ -84,13 +84,13 @@ def _api(flavour):
     if flavour == "data_io":
         return dict(
             ctx=tp.monkeypatch_plugin_registry_data_io,
-            reg=lambda names, cls: d.register_data_io(names)(cls),
+            reg=lambda names, cls: d.register_data_io(names)(cls), mkdec=d.register_data_io,
             set=d.set_data_plugin, get=d.get_data_io, known=d.known_data_formats,
             is_known=d.is_known_data_format, attr="data_io",
         )  # fmt: skip
     return dict(
         ctx=tp.monkeypatch_plugin_registry_project_io,
-        reg=lambda names, cls: p.register_project_io(names)(cls),
+        reg=lambda names, cls: p.register_project_io(names)(cls), mkdec=p.register_project_io,
         set=p.set_project_plugin, get=p.get_project_io, known=p.known_project_formats,
         is_known=p.is_known_project_format, attr="project_io",
     )  # fmt: skip
@@ -121,6 +121,8 @@ def alphabet(flavour):
             ev.append(["reg", s, c])
     if inst:
         ev += [["reg", ["x", "y"], "A"], ["reg", ["y", "x"], "B"]]
+        # "regd": the decorator object was created before the registry context was entered and is applied inside
+        ev += [["regd", "x", "A"], ["regd", "y", "B"]]
     ev.append(["reg", "x.y", "A"])
     for s in SHORTS:
         for c in "AB":
@@ -144,7 +146,7 @@ class RefModel:
 
     def apply(self, ev):
         """returns (expected exception type or None, expected number of overwrite warnings)"""
-        if ev[0] == "reg":
+        if ev[0] in ("reg", "regd"):
             names = ev[1] if isinstance(ev[1], list) else [ev[1]]
             warns = 0
             for s in names:
@@ -183,7 +185,7 @@ def real_state(flavour):
     return sorted((k, plugin_id(flavour, v)) for k, v in _registry(flavour).items())
 
 
-def apply_real(flavour, api, ev):
+def apply_real(flavour, api, ev, decorator=None):
     from glotaran.plugin_system.base_registry import PluginOverwriteWarning
 
     exc = None
@@ -192,6 +194,8 @@ def apply_real(flavour, api, ev):
         try:
             if ev[0] == "reg":
                 api["reg"](ev[1], _classes(flavour)[ev[2]])
+            elif ev[0] == "regd":
+                decorator(_classes(flavour)[ev[2]])
             else:
                 tgt = ev[2]
                 name = tgt[1] if tgt[0] == "raw" else full_of(flavour, tgt[1], tgt[2])
@@ -313,11 +317,14 @@ def run_history(flavour, history, dispatch_dir=None):
     model = RefModel(flavour != "megacomplex")
     vs = []
     outcome = None
+    # decorator objects of "regd" events exist before the fresh registry does
+    decorators = {i: api["mkdec"](ev[1]) for i, ev in enumerate(history) if ev[0] == "regd"}
+    outer = real_state(flavour)
     with api["ctx"]({}, create_new_registry=True):
         for i, ev in enumerate(history):
             before = real_state(flavour)
             want_exc, want_warn = model.apply(ev)
-            exc, nw, msgs = apply_real(flavour, api, ev)
+            exc, nw, msgs = apply_real(flavour, api, ev, decorators.get(i))
             last = i == len(history) - 1
             if want_exc is None and exc is not None:
                 vs.append(V("valid-operation-raised", event=ev, exc=repr(exc)))
@@ -331,6 +338,8 @@ def run_history(flavour, history, dispatch_dir=None):
                 outcome = [type(exc).__name__ if exc else None, nw]
                 vs += observe(flavour, api, model, dispatch_dir if last else None)
         state = real_state(flavour)
+    if real_state(flavour) != outer:
+        vs.append(V("registration-inside-context-leaked-into-outer-registry"))
     return core.digest(state), vs, {"outcome": outcome, "state": state}
 
 
